@@ -149,6 +149,12 @@ func Signers(u *uni.U, names []string) ([]note.Signer, []note.Verifier) {
 		case "legacy2":
 			s = append(s, u.W2.Signer)
 			v = append(v, u.W2.Verif)
+		case "legacy-logname":
+			s = append(s, u.W3.Signer)
+			v = append(v, u.W3.Verif)
+		case "cosig-logname":
+			s = append(s, u.W3.CosigSigner)
+			v = append(v, u.W3.CosigVerif)
 		default:
 			panic("unknown signer " + n)
 		}
